@@ -2,6 +2,8 @@
 mod intern;
 #[cfg(not(feature = "stateless"))]
 mod rln_exec;
+#[cfg(all(feature = "pmtree", not(feature = "stateless")))]
+mod storage_exec;
 mod tree_exec;
 mod util;
 
@@ -27,6 +29,8 @@ fn main() {
         "tree" => cmd_tree(&args),
         #[cfg(not(feature = "stateless"))]
         "rln" => cmd_rln(&args),
+        #[cfg(all(feature = "pmtree", not(feature = "stateless")))]
+        "storage" => cmd_storage(&args),
         c => {
             eprintln!("unknown command {c}");
             std::process::exit(2);
@@ -66,6 +70,19 @@ fn cmd_rln(args: &[String]) {
     let mut it = Interner::new();
     let mut out = Vec::new();
     rln_exec::run(&scenario, &mut it, &mut out);
+    write_ndjson(arg(args, "--out").expect("--out"), &out);
+    write_json(arg(args, "--tab").expect("--tab"), &it.tables());
+}
+
+/// zkexec storage --scenario S --out T --tab TAB --dir DIR : persistence and injected storage faults
+#[cfg(all(feature = "pmtree", not(feature = "stateless")))]
+fn cmd_storage(args: &[String]) {
+    let scenario = read_ndjson(arg(args, "--scenario").expect("--scenario"));
+    let dir = arg(args, "--dir").expect("--dir");
+    std::fs::create_dir_all(dir).unwrap();
+    let mut it = Interner::new();
+    let mut out = Vec::new();
+    storage_exec::run(&scenario, dir, &mut it, &mut out);
     write_ndjson(arg(args, "--out").expect("--out"), &out);
     write_json(arg(args, "--tab").expect("--tab"), &it.tables());
 }
